@@ -2318,3 +2318,54 @@ Proof.
     try reflexivity;
     unfold key_of in H; rewrite !key_in_tail in H; cbn in H; discriminate H.
 Qed.
+
+(* ================================================================== *)
+(* O. Accesses made from inside the framework's loop functions          *)
+(* ================================================================== *)
+Local Open Scope list_scope.
+
+Lemma loop_history_app : forall p1 p2,
+  loop_history (p1 ++ p2) = (loop_history p1 ++ loop_history p2)%list.
+Proof. intros. unfold loop_history. now rewrite map_app, concat_app. Qed.
+
+(* the operations of a history up to an operation that sits somewhere inside
+   a pass: all earlier passes, the earlier locations of this pass, the earlier
+   operations of this location *)
+Lemma loop_history_split : forall before locs1 ops1 (o : gop) ops2 locs2 after,
+  loop_history (before ++ [locs1 ++ (ops1 ++ o :: ops2) :: locs2] ++ after) =
+  ((loop_history before ++ concat locs1 ++ ops1) ++ o :: (ops2 ++ concat locs2 ++ loop_history after))%list.
+Proof.
+  intros. rewrite !loop_history_app. unfold loop_history at 2. cbn [map concat].
+  rewrite app_nil_r, concat_app. cbn [concat]. rewrite <- !app_assoc. reflexivity.
+Qed.
+
+(* C09's read clause for an attribute read made from ANY place of ANY pass
+   (a component's execute(), teleopPeriodic(), a @feedback getter, between
+   two passes): it gives the most recent write to its key among everything
+   that happened before it -- in earlier passes, earlier in this pass (other
+   components' execute(), a dashboard update that arrived meanwhile), earlier
+   in the same function *)
+Theorem read_latest_inside_a_pass : forall g before locs1 ops1 i a ops2 locs2 after b k ty d,
+  stamps_le (g_stamps g) (g_now g) ->
+  forallb gop_timely
+    (loop_history (before ++ [locs1 ++ (ops1 ++ GX (XOp (PyRead i a)) :: ops2) :: locs2] ++ after)) = true ->
+  no_setup (erase (gerase (g_classes g) (loop_history before ++ concat locs1 ++ ops1))) = true ->
+  inst_get (w_inst (x_w (g_x g))) i = Some b -> bind_get b a = Some (k, ty, d) ->
+  nth (length (gerase (g_classes g) (loop_history before ++ concat locs1 ++ ops1)))
+      (gevents (snd (grun g (loop_history
+         (before ++ [locs1 ++ (ops1 ++ GX (XOp (PyRead i a)) :: ops2) :: locs2] ++ after))))) XDone =
+  XEv (match last_write (x_w (g_x g))
+               (erase (gerase (g_classes g) (loop_history before ++ concat locs1 ++ ops1))) k with
+       | Some v => EvVal v
+       | None => py_read (x_w (g_x g)) i a
+       end).
+Proof.
+  intros g before locs1 ops1 i a ops2 locs2 after b k ty d Hs Ht Hn Hi Ha.
+  rewrite loop_history_split in *.
+  eapply read_latest_event_any_time; eassumption.
+Qed.
+
+(* regrouping the same operations into other passes / locations changes nothing *)
+Theorem loop_structure_irrelevant : forall g p1 p2,
+  loop_history p1 = loop_history p2 -> grun g (loop_history p1) = grun g (loop_history p2).
+Proof. intros g p1 p2 H. now rewrite H. Qed.
